@@ -741,6 +741,11 @@ where
     VL: Decode,
 {
     fn decode_with_param(bits: &usize, bytes: &mut Cursor<&[u8]>) -> Result<Self, CodecError> {
+        if *bits == 0 {
+            return Err(CodecError::Other(
+                "IDPF inputs must have at least one bit".into(),
+            ));
+        }
         let packed_control_len = bits.div_ceil(4);
         let mut packed_control_bits = vec![0u8; packed_control_len];
         bytes.read_exact(&mut packed_control_bits)?;
